@@ -168,10 +168,31 @@ fn seq(stream: Vec<u8>, sched: Vec<usize>) -> String {
                 // pending body, Head otherwise; HttpConn::read_body_to_vec: the arms on that state.
                 // (handle_http_conn_once reads a known-length body into memory only if len <= small_body_len.)
                 let coded = req.chunked || req.gzip;
+                let mut filetok: Option<String> = None;
                 let body = match &req.body {
                     RequestBody::PendingKnown(len) => {
                         m.push_str(&format!(" kind=known:{len}"));
                         if *len > SMALL_BODY_LEN {
+                            // handle_http_conn_once does not read such a body into memory; when the handler asks for it,
+                            // it is received into a file: do that on a copy of the unread bytes (the sequence ends here)
+                            if !coded && *len <= 400_000 {
+                                let rem = unread(&buf, &reader);
+                                let dir = temp_dir::TempDir::new().unwrap();
+                                let r = futures_lite::future::block_on(servlin::internal::read_http_body_to_file(
+                                    futures_lite::io::Cursor::new(rem),
+                                    *len,
+                                    dir.path(),
+                                ));
+                                filetok = Some(match r {
+                                    Ok(RequestBody::TempFile(tf, n)) => {
+                                        let data = std::fs::read(tf.path()).unwrap_or_default();
+                                        format!("file=ok:{n}:{}:h{:016x}", data.len(), fnv64(&data))
+                                    }
+                                    Ok(_) => "file=other".to_string(),
+                                    Err(HttpError::Truncated) => "file=trunc".to_string(),
+                                    Err(_) => "file=err".to_string(),
+                                });
+                            }
                             "deferred".to_string()
                         } else if coded {
                             "refused".to_string()
@@ -218,6 +239,9 @@ fn seq(stream: Vec<u8>, sched: Vec<usize>) -> String {
                     }
                 };
                 m.push_str(&format!(" body={body} left={}", tok_of_bytes(&unread(&buf, &reader))));
+                if let Some(f) = filetok {
+                    m.push_str(&format!(" {f}"));
+                }
             }
         }
         out.push(m);
